@@ -267,7 +267,8 @@ def l6(ctx: Ctx):
     ctx.ob("header-pattern", okh, "" if okh else "PROCEDURE_START_PREFIX does not read back the header line the tool emits (or also matches inside other statements)", file=PROCBANK_REL, line=1, props=["C13"])
     py = pyfacts(ctx)
     bp = py.resolve_method("BasicProg", "basic09_text")
-    okw = bp is not None and "f'procedure {self._procname}'" in unparse(bp[1])
+    # the header line may be produced by basic09_text itself or by a helper / generator of the class
+    okw = bp is not None and any("f'procedure {self._procname}'" in unparse(m_) for m_ in py.cls("BasicProg").methods.values())
     ctx.ob("header-emission", okw, "" if okw else "BasicProg no longer emits `procedure <name>` as its first line", file="coco/b09/prog.py", line=bp[1].lineno if bp else 1, props=["C13"])
     # user strings are always emitted inside quotes, and cannot contain a quote themselves
     lit = py.resolve_method("BasicLiteral", "basic09_text")
